@@ -115,7 +115,8 @@ Fixpoint skipk (h : list item) : list item :=
   match h with ItCfg _ _ :: t => skipk t | _ => h end.
 
 Definition tail_ok (r : recipe) (h : list item) : Prop :=
-  if rf_hashed r then exists l, skipk (skipf h) = [ItReq l]
+  if rf_hashed r
+  then exists l, skipk (skipf h) = [ItReq l] /\ length l = length (r_extra r)
   else skipk (skipf h) = [].
 
 Definition shape (r : recipe) (h : list item) : Prop :=
@@ -166,12 +167,14 @@ Proof. intros g [|k ks] t Ht; simpl; auto. Qed.
 
 Lemma shape_built : forall r vs (g : Z -> Z) rit,
   length vs = length (r_feats r) ->
-  (if rf_hashed r then exists l, rit = [ItReq l] else rit = []) ->
+  (if rf_hashed r
+   then exists l, rit = [ItReq l] /\ length l = length (r_extra r)
+   else rit = []) ->
   shape r (map ItFeat vs ++ map (fun k => ItCfg k (g k)) (r_keys r) ++ rit).
 Proof.
   intros r vs g rit Hl Hr.
   assert (Hrit : no_feat_head rit /\ no_cfg_head rit).
-  { destruct (rf_hashed r); [destruct Hr as [l ->]|subst]; simpl; auto. }
+  { destruct (rf_hashed r); [destruct Hr as [l [-> _]]|subst]; simpl; auto. }
   destruct Hrit as [Hnf Hnc].
   assert (Hnf' := no_feat_head_cfg g (r_keys r) rit Hnf).
   unfold shape, tail_ok. rewrite nfeat_app by exact Hnf'.
@@ -209,40 +212,64 @@ Proof.
   induction h as [|[v|k' v|l] h IH]; simpl; intros k; auto.
 Qed.
 
+Lemma req_item_skipk : forall ex h u, req_item ex h u = req_item ex (skipk h) u.
+Proof.
+  induction h as [|[v|k' v|l] h IH]; simpl; intros u; auto.
+Qed.
+
+Lemma req_item_skipf : forall ex h u, req_item ex h u = req_item ex (skipf h) u.
+Proof.
+  induction h as [|[v|k' v|l] h IH]; simpl; intros u; auto.
+Qed.
+
+Lemma extra_zip_found : forall ex l u,
+  length l = length ex -> mem_input u ex = true ->
+  exists v, extra_zip ex l u = Some v.
+Proof.
+  induction ex as [|e ex IH]; intros l u Hl Hin; [discriminate Hin|].
+  destruct l as [|v l]; [discriminate Hl|]. simpl.
+  destruct (input_eqb u e) eqn:E; [eauto|].
+  unfold mem_input in Hin. simpl in Hin. rewrite E in Hin. simpl in Hin.
+  apply IH; auto.
+Qed.
+
+(* a recipe without hashed req_func result has nothing in [r_extra] *)
+Definition extra_ok (r : recipe) : bool :=
+  rf_hashed r || match r_extra r with [] => true | _ => false end.
+
 Lemma covered_found : forall r h u,
-  r_extra r = [] -> shape r h -> covered r u = true ->
+  extra_ok r = true -> shape r h -> covered r u = true ->
   exists v, from_items r h u = Some v.
 Proof.
-  intros r h u Hex [Hn [Hk _]] Hc.
-  unfold covered, declared in Hc. rewrite Hex, app_nil_r in Hc.
-  assert (Hdata : forall f, mem_input (IData f)
-             (map IData (r_feats r) ++ map ICfg (r_keys r)) = true ->
-             In f (r_feats r)).
-  { intros f H. apply mem_input_in in H. apply in_app_or in H.
-    destruct H as [H|H]; apply in_map_iff in H; destruct H as [x [Hx Hi]];
-      inversion Hx; now subst. }
-  destruct u as [f|f|k]; simpl.
-  - rewrite orb_false_r in Hc. apply Hdata in Hc.
-    destruct (feat_item_found _ _ _ Hn Hc) as [v Hv]. rewrite Hv. eauto.
-  - assert (Hf : In f (r_feats r)).
-    { apply orb_prop in Hc. destruct Hc as [Hc|Hc]; [|now apply Hdata].
-      apply mem_input_in in Hc. apply in_app_or in Hc.
-      destruct Hc as [H|H]; apply in_map_iff in H;
-        destruct H as [x [Hx _]]; discriminate Hx. }
-    rewrite (in_memZ _ _ Hf). eauto.
-  - rewrite orb_false_r in Hc. apply mem_input_in in Hc.
-    apply in_app_or in Hc. destruct Hc as [H|H]; apply in_map_iff in H;
-      destruct H as [x [Hx Hi]]; try discriminate Hx.
-    inversion Hx. subst x. rewrite cfg_item_skipf.
-    apply cfg_item_keys. rewrite Hk. exact Hi.
+  intros r h u Hex [Hn [Hk Ht]] Hc.
+  unfold from_items.
+  assert (Hextra : mem_input u (r_extra r) = true ->
+                   exists v, req_item (r_extra r) h u = Some v).
+  { intros Hm. unfold extra_ok in Hex. unfold tail_ok in Ht.
+    destruct (rf_hashed r).
+    - destruct Ht as [l [Hl Hlen]].
+      rewrite req_item_skipf, req_item_skipk, Hl. simpl.
+      now apply extra_zip_found.
+    - simpl in Hex. destruct (r_extra r); [discriminate Hm|discriminate Hex]. }
+  unfold covered in Hc. apply orb_prop in Hc.
+  destruct u as [f|f|k].
+  - destruct (feat_item (r_feats r) h f) as [v|] eqn:E; [eauto|].
+    destruct Hc as [Hc|Hc]; [|now apply Hextra].
+    apply memZ_in in Hc.
+    destruct (feat_item_found _ _ _ Hn Hc) as [v Hv]. congruence.
+  - destruct (memZ f (r_feats r)) eqn:E; [eauto|].
+    destruct Hc as [Hc|Hc]; [discriminate Hc|now apply Hextra].
+  - destruct (cfg_item h k) as [v|] eqn:E; [eauto|].
+    destruct Hc as [Hc|Hc]; [|now apply Hextra].
+    apply memZ_in in Hc. rewrite cfg_item_skipf in E.
+    rewrite <- Hk in Hc. destruct (cfg_item_keys _ _ Hc) as [v Hv]. congruence.
 Qed.
 
 Lemma from_items_ext : forall r0 r h u,
   r_feats r0 = r_feats r -> r_extra r0 = r_extra r ->
   from_items r0 h u = from_items r h u.
 Proof.
-  intros r0 r h u Hf He. destruct u; simpl; try rewrite Hf; try rewrite He;
-    reflexivity.
+  intros r0 r h u Hf He. unfold from_items. rewrite Hf, He. reflexivity.
 Qed.
 
 (* ------------------------------------------------------------------ *)
@@ -282,7 +309,10 @@ Qed.
 Lemma RF_eq : RF = S (S 6).
 Proof. reflexivity. Qed.
 
-Lemma AF_eq : AF = S 23.
+Lemma SF_eq : SF = S 22.
+Proof. reflexivity. Qed.
+
+Lemma AF_eq : AF = S SF.
 Proof. reflexivity. Qed.
 
 Lemma read_S : forall n reg st f,
@@ -290,7 +320,7 @@ Lemma read_S : forall n reg st f,
   match feat_raw (s_base st) f with
   | Some i => (st, Ok (Raw i))
   | None =>
-    match select AF reg st f with
+    match select SF reg st f with
     | None => (st, Err e_key)
     | Some r =>
       let '(st1, fvals, err) :=
@@ -340,7 +370,7 @@ Lemma read_S : forall n reg st f,
   end.
 Proof. reflexivity. Qed.
 
-Opaque AF RF.
+Opaque SF AF RF.
 
 (* the fold of AncillaryFeature.hash *)
 Lemma fold_hash_err : forall rd fs s vs k,
@@ -377,7 +407,7 @@ Proof.
   intros reg. induction n as [|n IH]; intros st f HI; [exact HI|].
   rewrite read_S.
   destruct (feat_raw (s_base st) f); [exact HI|].
-  destruct (select AF reg st f) as [r|] eqn:Es; [|exact HI].
+  destruct (select SF reg st f) as [r|] eqn:Es; [|exact HI].
   destruct (select_some _ _ _ _ _ Es) as [Hin Hname].
   pose proof (fold_hash_prop (read n reg) (Inv reg)
                 (fun s g Hs => IH s g Hs) (r_feats r) st [] None HI) as HI1.
@@ -394,7 +424,8 @@ Proof.
           else [])).
   assert (Hshape : shape r items).
   { apply shape_built; [exact EF|].
-    destruct (rf_hashed r); [eexists; reflexivity|reflexivity]. }
+    destruct (rf_hashed r); [|reflexivity].
+    eexists. split; [reflexivity|]. now rewrite map_length. }
   destruct (match assoc f (s_cache st1) with
             | Some (h, v) => if items_eqb h items then Some v else None
             | None => None end) as [v|]; [exact HI1|].
@@ -469,7 +500,7 @@ Proof.
 Qed.
 
 Lemma view_covered : forall reg r items st st' u,
-  r_extra r = [] -> shape r items -> covered r u = true ->
+  extra_ok r = true -> shape r items -> covered r u = true ->
   view_input AF reg st r items u = view_input AF reg st' r items u.
 Proof.
   intros reg r items st st' u Hex Hs Hc.
@@ -478,20 +509,21 @@ Proof.
 Qed.
 
 Lemma shape_collidable : forall r0 r h,
-  shape r0 h -> shape r h -> rf_hashed r = false ->
+  shape r0 h -> shape r h ->
   memZ (r_name r) (r_outs r0) = true -> collidable r0 r = true.
 Proof.
-  intros r0 r h [Hn0 [Hk0 Ht0]] [Hn [Hk Ht]] Hrf Hm.
+  intros r0 r h [Hn0 [Hk0 Ht0]] [Hn [Hk Ht]] Hm.
   unfold collidable. rewrite Hm. simpl.
   assert (Hkeys : r_keys r0 = r_keys r) by congruence.
   assert (Hlen : length (r_feats r0) = length (r_feats r)) by congruence.
-  rewrite Hkeys, Hlen, Z.eqb_refl, Hrf.
+  rewrite Hkeys, Hlen, Z.eqb_refl.
   assert (Hl : forall l : list Z, list_eqb Z.eqb l l = true).
   { induction l; simpl; auto. now rewrite Z.eqb_refl. }
   rewrite Hl. simpl.
-  unfold tail_ok in Ht0, Ht. rewrite Hrf in Ht.
-  destruct (rf_hashed r0); simpl; auto.
-  destruct Ht0 as [l Hl0]. rewrite Ht in Hl0. discriminate Hl0.
+  unfold tail_ok in Ht0, Ht.
+  destruct (rf_hashed r0), (rf_hashed r); simpl; auto.
+  - destruct Ht0 as [l [Hl0 _]]. rewrite Ht in Hl0. discriminate Hl0.
+  - destruct Ht as [l [Hl1 _]]. rewrite Ht0 in Hl1. discriminate Hl1.
 Qed.
 
 Lemma collide_ok_use : forall reg r0 r,
@@ -520,12 +552,12 @@ Proof.
 Qed.
 
 Lemma select_keys : forall reg st f r,
-  select AF reg st f = Some r ->
+  select SF reg st f = Some r ->
   forallb (fun k => has k (b_cfg (s_base st))) (r_keys r) = true.
 Proof.
   intros reg st f r H. unfold select in H. apply find_some in H.
   destruct H as [_ H]. apply andb_prop in H. destruct H as [_ H].
-  rewrite AF_eq in H. now apply avail_keys in H.
+  rewrite SF_eq in H. now apply avail_keys in H.
 Qed.
 
 Lemma ctc_not_missing : forall reg st st' r,
@@ -541,27 +573,51 @@ Proof.
   rewrite H. cbn [negb]. now rewrite andb_false_r.
 Qed.
 
+Definition is_idata (u : input) : bool :=
+  match u with IData _ => true | _ => false end.
+
+(* what the guard of the coherence theorems asks of the selected recipe *)
+Definition coherent_recipe (b : base) (r : recipe) : bool :=
+  forallb (in_base b) (r_feats r)          (* required features are stored *)
+  && uses_covered r                        (* reads only hashed ingredients *)
+  && plain_method r
+  && extra_ok r
+  && forallb is_idata (r_extra r).         (* hashed req_func result: data *)
+
+Lemma direct_data_base : forall reg st st' l,
+  s_base st' = s_base st -> forallb is_idata l = true ->
+  map (direct AF reg st') l = map (direct AF reg st) l.
+Proof.
+  intros reg st st' l Hb Hl. apply map_ext_in. intros u Hu.
+  rewrite forallb_forall in Hl. specialize (Hl u Hu).
+  destruct u; try discriminate Hl. simpl. now rewrite Hb.
+Qed.
+
 Theorem read_coherent_flat : forall reg st f,
   collide_ok reg = true -> Inv reg st ->
-  select AF reg st f = select AF reg (clear st) f ->
-  (forall r, select AF reg st f = Some r ->
-     forallb (in_base (s_base st)) (r_feats r) = true
-     /\ uses_covered r = true /\ plain_method r = true
-     /\ rf_hashed r = false /\ r_extra r = []) ->
+  select SF reg st f = select SF reg (clear st) f ->
+  (forall r, select SF reg st f = Some r ->
+     coherent_recipe (s_base st) r = true) ->
   snd (read RF reg st f) = snd (read RF reg (clear st) f).
 Proof.
   intros reg st f Hco HI Hsel Hg.
   rewrite RF_eq. rewrite !read_S. cbn [clear s_base s_cache].
   destruct (feat_raw (s_base st) f); [reflexivity|].
   rewrite <- Hsel.
-  destruct (select AF reg st f) as [r|] eqn:Es; [|reflexivity].
-  destruct (Hg r eq_refl) as [Hflat [Hcov [Hmk [Hrf Hex]]]].
+  destruct (select SF reg st f) as [r|] eqn:Es; [|reflexivity].
+  specialize (Hg r eq_refl). unfold coherent_recipe in Hg.
+  apply andb_prop in Hg. destruct Hg as [Hg Hidata].
+  apply andb_prop in Hg. destruct Hg as [Hg Hex].
+  apply andb_prop in Hg. destruct Hg as [Hg Hmk].
+  apply andb_prop in Hg. destruct Hg as [Hflat Hcov].
   destruct (select_some _ _ _ _ _ Es) as [Hin Hname].
   rewrite (fold_flat reg 6 (r_feats r) st [] Hflat).
   assert (Hflat' : forallb (in_base (s_base (clear st))) (r_feats r) = true)
     by exact Hflat.
   rewrite (fold_flat reg 6 (r_feats r) (clear st) [] Hflat').
-  cbv zeta. cbn [clear s_base s_cache assoc]. rewrite Hrf.
+  cbv zeta. unfold clear. cbn [s_base s_cache assoc].
+  rewrite (direct_data_base reg st (mkState (s_base st) []) (r_extra r)
+             eq_refl Hidata).
   pose proof (select_keys _ _ _ _ Es) as Hkeys.
   assert (Hm1 : (r_mkind r =? 1) = false).
   { unfold plain_method in Hmk. apply orb_prop in Hmk.
@@ -585,14 +641,18 @@ Proof.
     rewrite E0 in Hmk. cbn [orb andb] in Hmk.
     now rewrite (ctc_not_missing reg st s r Hs Hmk Hkeys). }
   rewrite Hm1.
-  rewrite (Hplain st eq_refl []), (Hplain (clear st) eq_refl []).
+  rewrite (Hplain st eq_refl []),
+          (Hplain (mkState (s_base st) []) eq_refl []).
   set (items := map ItFeat ([] ++ map (raw_or0 (s_base st)) (r_feats r)) ++
          map (fun k => ItCfg k match cfg (s_base st) k with
-                               | Some v => v | None => 0 end) (r_keys r) ++ []).
+                               | Some v => v | None => 0 end) (r_keys r) ++
+         (if rf_hashed r then [ItReq (map (direct AF reg st) (r_extra r))]
+          else [])).
   assert (Hshape : shape r items).
   { apply shape_built.
     - simpl. now rewrite map_length.
-    - rewrite Hrf. reflexivity. }
+    - destruct (rf_hashed r); [|reflexivity].
+      eexists. split; [reflexivity|]. now rewrite map_length. }
   assert (Hview : forall s s',
      map (view_input AF reg s r items) (r_uses r)
      = map (view_input AF reg s' r items) (r_uses r)).
@@ -623,19 +683,17 @@ Proof.
       { unfold uses_covered in Hcov. rewrite forallb_forall in Hcov. auto. }
       destruct (covered_found r items u Hex Hshape Hc) as [w Hw].
       now rewrite Hw.
-    + rewrite (Hview st (clear st)). reflexivity.
-  - rewrite (Hview st (clear st)). reflexivity.
+    + rewrite (Hview st (mkState (s_base st) [])). reflexivity.
+  - rewrite (Hview st (mkState (s_base st) [])). reflexivity.
 Qed.
 
 (* the same after any history, starting from any freshly opened dataset *)
 Theorem history_read_coherent : forall reg b ops f,
   collide_ok reg = true ->
   let st := run_state reg (fresh b) ops in
-  select AF reg st f = select AF reg (clear st) f ->
-  (forall r, select AF reg st f = Some r ->
-     forallb (in_base (s_base st)) (r_feats r) = true
-     /\ uses_covered r = true /\ plain_method r = true
-     /\ rf_hashed r = false /\ r_extra r = []) ->
+  select SF reg st f = select SF reg (clear st) f ->
+  (forall r, select SF reg st f = Some r ->
+     coherent_recipe (s_base st) r = true) ->
   snd (read RF reg st f) = snd (read RF reg (clear st) f).
 Proof.
   intros reg b ops f Hco st Hsel Hg.
@@ -643,7 +701,194 @@ Proof.
   apply run_inv. apply fresh_inv.
 Qed.
 
-(* the fresh value of such a read is the method applied to the current
-   ingredients: the specification of "what a fresh dataset computes" *)
+(* ------------------------------------------------------------------ *)
+(* "reported as available exactly when reading succeeds"               *)
+(* ------------------------------------------------------------------ *)
+Lemma existsb_filter_find {A} : forall (p q : A -> bool) (l : list A),
+  existsb p (filter q l)
+  = match find (fun x => q x && p x) (rev l) with Some _ => true | None => false end.
+Proof.
+  intros p q l.
+  destruct (find (fun x => q x && p x) (rev l)) as [x|] eqn:E.
+  - apply find_some in E. destruct E as [Hin Hp].
+    apply andb_prop in Hp. destruct Hp as [Hq Hp].
+    apply existsb_exists. exists x. split; [|exact Hp].
+    apply filter_In. split; [now apply in_rev|exact Hq].
+  - destruct (existsb p (filter q l)) eqn:Ex; [|reflexivity].
+    apply existsb_exists in Ex. destruct Ex as [x [Hin Hp]].
+    apply filter_In in Hin. destruct Hin as [Hin Hq].
+    pose proof (find_none _ _ E x (proj1 (in_rev l x) Hin)) as Hn.
+    cbv beta in Hn. rewrite Hq, Hp in Hn. discriminate Hn.
+Qed.
+
+(* __contains__ = stored, or cached, or some instance is available *)
+Lemma contains_select : forall reg st f,
+  contains AF reg st f
+  = in_base (s_base st) f || has f (s_cache st)
+    || match select SF reg st f with Some _ => true | None => false end.
+Proof.
+  intros reg st f. rewrite AF_eq. cbn [contains]. unfold select.
+  now rewrite existsb_filter_find.
+Qed.
+
+Lemma plain_outcome : forall reg st r,
+  plain_method r = true ->
+  forallb (fun k => has k (b_cfg (s_base st))) (r_keys r) = true ->
+  (r_mkind r =? 1) = false
+  /\ forall s, s_base s = s_base st ->
+       (if r_mkind r =? 2
+        then if ctc_missing AF reg s then inr e_ctmiss
+             else inl (@nil (option val), r_uses r)
+        else inl ([], r_uses r))
+       = (inl ([], r_uses r) : (list (option val) * list input) + Z).
+Proof.
+  intros reg st r Hmk Hkeys. split.
+  - unfold plain_method in Hmk. apply orb_prop in Hmk.
+    destruct Hmk as [H|H]; [|apply andb_prop in H; destruct H as [H _]];
+      apply Z.eqb_eq in H; rewrite H; reflexivity.
+  - intros s Hs. destruct (r_mkind r =? 2) eqn:E2; [|reflexivity].
+    unfold plain_method in Hmk. rewrite E2 in Hmk.
+    assert (E0 : (r_mkind r =? 0) = false).
+    { apply Z.eqb_eq in E2. rewrite E2. reflexivity. }
+    rewrite E0 in Hmk. cbn [orb andb] in Hmk.
+    now rewrite (ctc_not_missing reg st s r Hs Hmk Hkeys).
+Qed.
+
+(* For every state (reachable or not): if a cached feature is still
+   selectable (guard; excludes finding C06-cached-stays-listed) and the
+   selected recipe has stored required features and a method that cannot
+   reject its inputs (generic, or the full 3-channel crosstalk correction),
+   then `feat in ds` is True exactly when ds[feat] returns a value. *)
+Theorem available_iff_readable : forall reg st f,
+  (has f (s_cache st) = true ->
+   in_base (s_base st) f = true \/ select SF reg st f <> None) ->
+  (forall r, select SF reg st f = Some r ->
+     forallb (in_base (s_base st)) (r_feats r) = true
+     /\ plain_method r = true) ->
+  (contains AF reg st f = true <-> exists v, snd (read RF reg st f) = Ok v).
+Proof.
+  intros reg st f Hcached Hg. rewrite contains_select.
+  rewrite RF_eq, read_S. unfold in_base in *.
+  destruct (feat_raw (s_base st) f) as [i|] eqn:Ef.
+  - cbn [orb snd]. split; [eauto|reflexivity].
+  - cbn [orb].
+    destruct (select SF reg st f) as [r|] eqn:Es.
+    + rewrite orb_true_r. split; [intros _|reflexivity].
+      destruct (Hg r eq_refl) as [Hflat Hmk].
+      pose proof (select_keys _ _ _ _ Es) as Hkeys.
+      destruct (plain_outcome reg st r Hmk Hkeys) as [Hm1 Hplain].
+      rewrite (fold_flat reg 6 (r_feats r) st [] Hflat).
+      cbv zeta. rewrite Hm1, (Hplain st eq_refl).
+      match goal with
+      | |- context [match ?X with Some v => (st, Ok v) | None => _ end] =>
+          destruct X as [v|]
+      end; cbn [snd]; eauto.
+    + rewrite orb_false_r. cbn [snd].
+      split.
+      * intros Hh. destruct (Hcached Hh) as [H|H];
+          [discriminate H|now elim H].
+      * intros [v Hv]. discriminate Hv.
+Qed.
+
+(* ------------------------------------------------------------------ *)
+(* what a fresh dataset computes: the method on the current ingredients *)
+(* ------------------------------------------------------------------ *)
 Definition spec_value (reg : list recipe) (b : base) (r : recipe) (f : Z) : val :=
   Comp (r_meth r) f (map (direct AF reg (fresh b)) (r_uses r)).
+
+Lemma feat_item_raw : forall b fs t g v,
+  feat_item fs (map ItFeat (map (raw_or0 b) fs) ++ t) g = Some v ->
+  In g fs /\ v = Some (raw_or0 b g).
+Proof.
+  intros b. induction fs as [|a fs IH]; simpl; intros t g v H; [discriminate H|].
+  destruct (g =? a) eqn:E.
+  - apply Z.eqb_eq in E. subst a. inversion H. auto.
+  - apply IH in H. destruct H as [H1 H2]. auto.
+Qed.
+
+Lemma cfg_item_built : forall (g : Z -> Z) vs ks rit k v,
+  (rit = [] \/ exists l, rit = [ItReq l]) ->
+  cfg_item (map ItFeat vs ++ map (fun k => ItCfg k (g k)) ks ++ rit) k = Some v ->
+  In k ks /\ v = Some (Raw (g k)).
+Proof.
+  intros g vs ks rit k v Hrit. induction vs as [|x vs IHv]; simpl.
+  - induction ks as [|a ks IH]; simpl.
+    + destruct Hrit as [->|[l ->]]; simpl; discriminate.
+    + destruct (k =? a) eqn:E.
+      * apply Z.eqb_eq in E. subst a. intros H. inversion H. auto.
+      * intros H. apply IH in H. destruct H. auto.
+  - exact IHv.
+Qed.
+
+Lemma extra_zip_map : forall (d : input -> option val) ex u v,
+  extra_zip ex (map d ex) u = Some v -> v = d u.
+Proof.
+  intros d. induction ex as [|e ex IH]; simpl; intros u v H; [discriminate H|].
+  destruct (input_eqb u e) eqn:E.
+  - apply input_eqb_eq in E. subst e. now inversion H.
+  - now apply IH.
+Qed.
+
+Lemma req_item_built : forall (d : input -> option val) (g : Z -> Z) ex vs ks rit u v,
+  (rit = [] \/ rit = [ItReq (map d ex)]) ->
+  req_item ex (map ItFeat vs ++ map (fun k => ItCfg k (g k)) ks ++ rit) u = Some v ->
+  v = d u.
+Proof.
+  intros d g ex vs ks rit u v Hrit.
+  induction vs as [|x vs IHv]; simpl; [|exact IHv].
+  induction ks as [|a ks IH]; simpl; [|exact IH].
+  destruct Hrit as [->| ->]; simpl; [discriminate|].
+  apply extra_zip_map.
+Qed.
+
+(* A fresh dataset (empty cache) whose selected recipe has stored required
+   features and a method that cannot reject its inputs returns exactly the
+   method applied to the CURRENT values of everything the method reads. *)
+Theorem read_fresh_is_spec : forall reg b f r,
+  feat_raw b f = None -> select SF reg (fresh b) f = Some r ->
+  forallb (in_base b) (r_feats r) = true -> plain_method r = true ->
+  snd (read RF reg (fresh b) f) = Ok (spec_value reg b r f).
+Proof.
+  intros reg b f r Hf Es Hflat Hmk.
+  rewrite RF_eq, read_S. cbn [fresh s_base]. rewrite Hf, Es.
+  pose proof (select_keys _ _ _ _ Es) as Hkeys. cbn [fresh s_base] in Hkeys.
+  destruct (plain_outcome reg (fresh b) r Hmk Hkeys) as [Hm1 Hplain].
+  rewrite (fold_flat reg 6 (r_feats r) (fresh b) [] Hflat).
+  cbv zeta. cbn [fresh s_base s_cache assoc app].
+  rewrite Hm1, (Hplain (fresh b) eq_refl). cbn [snd app].
+  unfold spec_value. f_equal. f_equal. apply map_ext_in. intros u Hu.
+  unfold view_input, from_items.
+  set (gk := fun k => match cfg b k with Some v => v | None => 0 end).
+  set (rit := if rf_hashed r
+              then [ItReq (map (direct AF reg (fresh b)) (r_extra r))] else []).
+  assert (Hrit1 : rit = [] \/ exists l, rit = [ItReq l]).
+  { unfold rit. destruct (rf_hashed r); eauto. }
+  assert (Hrit2 : rit = [] \/
+                  rit = [ItReq (map (direct AF reg (fresh b)) (r_extra r))]).
+  { unfold rit. destruct (rf_hashed r); auto. }
+  assert (Hreq : forall v,
+    req_item (r_extra r)
+      (map ItFeat (map (raw_or0 b) (r_feats r)) ++
+       map (fun k => ItCfg k (gk k)) (r_keys r) ++ rit) u = Some v ->
+    v = direct AF reg (fresh b) u).
+  { intros v. now apply req_item_built. }
+  destruct u as [g|g|k].
+  - destruct (feat_item (r_feats r) _ g) as [v|] eqn:E.
+    + apply feat_item_raw in E. destruct E as [Hin ->].
+      rewrite forallb_forall in Hflat. specialize (Hflat g Hin).
+      unfold in_base in Hflat. unfold raw_or0. cbn [direct fresh s_base].
+      destruct (feat_raw b g); [reflexivity|discriminate Hflat].
+    + destruct (req_item _ _ _) as [v|] eqn:E2; [now apply Hreq|reflexivity].
+  - destruct (memZ g (r_feats r)) eqn:E.
+    + apply memZ_in in E. rewrite forallb_forall in Hflat.
+      specialize (Hflat g E). cbn [direct].
+      rewrite contains_select. cbn [fresh s_base]. rewrite Hflat. reflexivity.
+    + destruct (req_item _ _ _) as [v|] eqn:E2; [now apply Hreq|reflexivity].
+  - destruct (cfg_item _ k) as [v|] eqn:E.
+    + apply (cfg_item_built gk) in E; [|exact Hrit1].
+      destruct E as [Hin ->].
+      rewrite forallb_forall in Hkeys. specialize (Hkeys k Hin).
+      unfold has in Hkeys. cbn [direct fresh s_base]. unfold gk, cfg.
+      destruct (assoc k (b_cfg b)); [reflexivity|discriminate Hkeys].
+    + destruct (req_item _ _ _) as [v|] eqn:E2; [now apply Hreq|reflexivity].
+Qed.
